@@ -1199,3 +1199,48 @@ func (w *World) mapKeyAlwaysPresent(m ssa.Value, k int64) (bool, string) {
 	}
 	return true, fmt.Sprintf("%s guarantees key %d: every return is behind 'key found' or a store under that key, and nothing else writes or deletes the map", w.FuncName(init), k)
 }
+
+// ---------- NARROW (text parsers only)
+//
+// A conversion to a narrower or differently signed integer type inside the flow-description
+// tokenizer silently changes a number the text spelled out (65616 → 80, 200 → -56): the filter then
+// differs from the one written. The operand must be the result of strconv.ParseUint with a constant
+// bitSize that fits the target, a constant, or a value of a type that already fits.
+func (e *oblEngine) narrowObls(f *ssa.Function) {
+	allInstrs(f, func(i ssa.Instruction) {
+		cv, ok := i.(*ssa.Convert)
+		if !ok {
+			return
+		}
+		tb, ok := cv.Type().Underlying().(*types.Basic)
+		if !ok || tb.Info()&types.IsInteger == 0 {
+			return
+		}
+		sb, ok := cv.X.Type().Underlying().(*types.Basic)
+		if !ok || sb.Info()&types.IsInteger == 0 {
+			return
+		}
+		tw, _ := goWidth(cv.Type())
+		sw, _ := goWidth(cv.X.Type())
+		tUns, sUns := tb.Info()&types.IsUnsigned != 0, sb.Info()&types.IsUnsigned != 0
+		fits := (sUns == tUns && sw <= tw) || (sUns && !tUns && sw < tw)
+		if fits {
+			return
+		}
+		if _, isK := constInt(cv.X); isK {
+			return
+		}
+		c := e.constructOf(f, cv.Pos(), func(n ast.Node) bool { _, ok := n.(*ast.CallExpr); return ok }, cv.Type().String()+"("+valueText(cv.X)+")")
+		good, how := false, ""
+		if ex, ok := cv.X.(*ssa.Extract); ok && ex.Index == 0 {
+			if call, ok := ex.Tuple.(*ssa.Call); ok && calleeName(call) == "strconv.ParseUint" && tUns {
+				if bits, isK := constInt(call.Call.Args[2]); isK && bits > 0 && bits <= tw {
+					if ev := errResult(call); ev != nil && errGuarded(f, call, ev, func(j ssa.Instruction) bool { return j == ssa.Instruction(cv) }) {
+						good, how = true, fmt.Sprintf("ParseUint(…, %d) succeeded: the value fits %s", bits, cv.Type())
+					}
+				}
+			}
+		}
+		e.record("NARROW", f, cv, c, good, false, ifelse(good, how, fmt.Sprintf("a %s is converted to %s without a bound that fits: a number in the text that is out of range wraps around instead of being refused (the filter differs from the one written)", cv.X.Type(), cv.Type())))
+	})
+}
